@@ -9,9 +9,16 @@ use serde::{Deserialize, Serialize};
 #[derive(Clone, Debug, Serialize, Deserialize)]
 pub struct Case {
     pub ops: Vec<Op>,
+    /// > 0: instead of a history, the scenario of props/scale.rs with this many events of one author
+    #[serde(default)]
+    pub scale: u32,
 }
 
 pub struct C17;
+
+pub fn scale_sizes(tier: Tier) -> Vec<u32> {
+    tier.pick(vec![5_300, 12_500, 70_000], vec![5_300, 12_500, 33_000, 70_000, 140_000])
+}
 
 /// The filter shapes an event's own fields satisfy.
 pub fn derived_filters(e: &MEvent) -> Vec<(String, MFilter)> {
@@ -71,7 +78,7 @@ impl Prop for C17 {
             mass_delete: 0,
             big: 1,
         };
-        history(w, EvCfg::default(), tier.pick(25, 80)).prop_map(|ops| Case { ops }).boxed()
+        history(w, EvCfg::default(), tier.pick(25, 80)).prop_map(|ops| Case { ops, scale: 0 }).boxed()
     }
     fn label_floors(&self) -> Vec<(&'static str, f64)> {
         vec![("removal-with-shared-tag", 0.1)]
@@ -82,8 +89,18 @@ impl Prop for C17 {
     fn max_shrink_iters(&self) -> u32 {
         400
     }
+    fn enumerated_subspaces(&self, tier: Tier) -> Vec<String> {
+        vec![format!("large stores ({:?} events of one author + 50 others): every index plan unlimited and with a limit of n-3, the oldest event through its own filter shapes, entry counts, then vanish and counts again", scale_sizes(tier))]
+    }
+    fn enumerate(&self, tier: Tier) -> Vec<Case> {
+        scale_sizes(tier).into_iter().map(|n| Case { ops: Vec::new(), scale: n }).collect()
+    }
     fn check(&self, c: &Case) -> Outcome {
         let mut out = Outcome::default();
+        if c.scale > 0 {
+            crate::props::scale::scale_scenario("C17", c.scale as usize, crate::props::scale::Focus::Paths, &mut out);
+            return out;
+        }
         let mut w = match World::new(0) {
             Ok(w) => w,
             Err(f) => {
